@@ -198,6 +198,13 @@ func genForward(ctx *Ctx, prop string) {
 				val = bytes.Repeat([]byte{byte(r.Intn(256))}, 200+r.Intn(ctx.Scale(3000, 60000)))
 				ctx.Count("highly-compressible-content")
 			}
+			if r.Intn(8) == 0 {
+				// a long incompressible run followed by a repeat of its beginning: one literal run of more than two thousand
+				// bytes before a match (the shape the pinned lz4 module's decoder rejected)
+				val = r.Bytes(2100 + r.Intn(4000))
+				val = append(val, val[:64]...)
+				ctx.Count("long-literal-run-then-a-match")
+			}
 			e.Options.PositionalValues = []*primitive.Value{primitive.NewValue([]byte("tok:" + tok)), primitive.NewValue(val)}
 			msg = e
 			kind = "execute"
